@@ -109,6 +109,10 @@ def code_to_spec(ctx, arm, ncases):
         if n and rng.random() < 0.3:
             mask[:min(n, int(rng.integers(1, 4)))] = True      # NaN in the first steps
         data[mask] = np.nan
+        if longint and n >= 400 and rng.random() < 0.7:
+            # a long run of missing values (100 - 300) after a stretch of data: the gap is bridged by the recursion itself
+            g0 = int(rng.integers(15, n - 320))
+            data[g0:g0 + int(rng.integers(100, 300))] = np.nan
         nanparam = order > 0 and rng.random() < 0.06
         phi = np.array(c, dtype=float) / 2.0
         # the NaN parameter is a coefficient, the mean or the (explicit) initial value
